@@ -10,11 +10,11 @@ pub fn iri_domain(f: Family, fr: &FamRefs, n: usize, level: u8) -> Vec<Vec<u8>> 
 	// %FF / %FE: octets that are not UTF-8; %C0%AF: overlong '/', %2F: encoded '/'
 	let mut segs: Vec<&str> = vec!["", ".", "..", "a", "b", "a:b", "%FF"];
 	if level == 0 {
-		segs = vec!["", "..", "a", "b", "%FF", "%FE", "%61"];
+		segs = vec!["", "..", "a", "b", "%FF", "%FE", "%61", "1:b"];
 	}
 	if level >= 2 {
 		// the full alphabet, used with a smaller segment bound
-		segs = vec!["", ".", "..", "a", "b", "a:b", "%FF", "%FE", "%C0%AF", "%2F", "%61"];
+		segs = vec!["", ".", "..", "a", "b", "a:b", "1:b", "%FF", "%FE", "%C0%AF", "%2F", "%61"];
 	}
 	if f == Family::Iri && level >= 1 {
 		segs.push("é");
